@@ -1660,10 +1660,21 @@ impl Checker {
         let iter = OffsetStrIter::new(&contents).with_src_file(&resolved_path);
         let mut stmts = match parse(iter, None) {
             Ok(stmts) => stmts,
-            Err(_) => {
+            Err(err) => {
+                // Like a type error in the imported file a syntax error is
+                // reported where it is, not at the import that led to it.
+                let err_pos = match err.pos.clone() {
+                    Some(p) if p.file.is_none() => p.with_file(&resolved_path),
+                    Some(p) => p,
+                    None => pos.clone(),
+                };
                 return Shape::TypeErr(
-                    pos.clone(),
-                    format!("Failed to parse imported file: {}", resolved_path.display()),
+                    err_pos,
+                    format!(
+                        "Failed to parse imported file: {}: {}",
+                        resolved_path.display(),
+                        err.msg
+                    ),
                 );
             }
         };
